@@ -412,7 +412,7 @@ def _set_cookie():
         return _model('Set-Cookie', name=n, value=v, expires=expires, max_age=max_age, domain=domain, path=path_value,
                       secure=secure, http_only=http_only, same_site=same_site)
     return st.builds(build, name, value, st.one_of(st.none(), epoch_seconds()),
-                     st.one_of(st.none(), st.integers(1, 10 ** 9)), st.one_of(st.none(), hostnames()),
+                     st.one_of(st.none(), st.sampled_from([0, 0, 1]), st.integers(0, 10 ** 9)), st.one_of(st.none(), hostnames()),
                      st.one_of(st.none(), path), st.booleans(), st.booleans(),
                      st.sampled_from([None, None, 'STRICT', 'Lax', 'None']))
 
